@@ -6,9 +6,12 @@ import random
 import vlib
 
 LEVEL = "model_checking"
+SHARED = [[0, 0], [0, 0]]
 
 # exact-in-binary monotone affine maps  v -> a*v + b  (a > 0); tolerance scales by a
-MAPS = [(1, 0, "int"), (1.0, 0.0, "float"), (0.5, -7.0, "x0.5-7"), (2.0 ** -10, 1.0, "x2^-10+1"), (1e6, 0.0, "x1e6")]
+MAPS = [(1, 0, "int"), (1.0, 0.0, "float"), (0.5, -7.0, "x0.5-7"), (2.0 ** -10, 1.0, "x2^-10+1"), (1e6, 0.0, "x1e6"),
+        # lattice steps that are tiny RELATIVE to the magnitude (a 'close enough' comparison must not swallow an outlier)
+        (1.0, 2.0 ** 40, "+2^40"), (2.0 ** -32, 1.0, "x2^-32+1")]
 
 
 def _pu():
@@ -75,7 +78,9 @@ def record_events(pu, rng, n):
             t = rng.choice([0, 1, rng.randint(0, max(1, scale // 4))])
             x = rng.choice([r(), xlo, xhi, xlo - t, xhi + t, xlo - t - 1, xhi + t + 1])
             y = rng.choice([r(), ylo, yhi, ylo - t, yhi + t, ylo - t - 1, yhi + t + 1, (ylo + yhi) // 2])
-            got = pu.point_in_bounds([c(x), c(y)], [[c(xlo), c(ylo)], [c(xhi), c(yhi)]], c(t))
+            # one bounds list object lives across the whole run and is edited in place (a caller may do that between calls)
+            SHARED[0][0], SHARED[0][1], SHARED[1][0], SHARED[1][1] = c(xlo), c(ylo), c(xhi), c(yhi)
+            got = pu.point_in_bounds([c(x), c(y)], SHARED, c(t))
             e = {"k": "2d", "x": x, "y": y, "xlo": xlo, "ylo": ylo, "xhi": xhi, "yhi": yhi, "t": t, "pib": bool(got)}
         e["asfloat"] = asf
         evs.append(e)
